@@ -131,6 +131,13 @@ def make_graph (rng, gnd = None, curves = True, nw_max = 6, seg = (1, 5), tags =
         for g, t in zip (geo, ts):
             if rng.random () < 0.5:
                 g ['tag'] = int (t)
+    # conductors of different thickness on one junction (thin wire, tube ten times as thick, wire in between): a third
+    # of the structures (own random stream, from the coordinates)
+    rr = np.random.default_rng ([int (abs (x) * 1e6) % 1000003 for g in geo if g ['k'] == 'w' for x in g ['p1']] + [len (geo)])
+    if rr.random () < 0.33:
+        for g in geo:
+            if g ['k'] == 'w':
+                g ['r'] = float (g ['r'] * float (rr.choice ([0.5, 1.0, 2.5, 5.0, 10.0])))
     seg_min = None
     for g in geo:
         nd = georef.nodes_of (g)
